@@ -38,7 +38,8 @@ def go_test_demo(wt, target, tags):
     src = open(os.path.join(wt, target)).read()
     names = re.findall(r"^func (Test\w+)\(", src, re.M)
     run = "^(" + "|".join(names) + ")$"
-    rc, out = sh("go test %s -vet=off -count=1 -run '%s' %s" % (tags, run, pkg), cwd=wt, timeout=900)
+    env = dict(ENV, CGO_ENABLED="1") if "-race" in tags else ENV
+    rc, out = sh("go test %s -vet=off -count=1 -run '%s' %s" % (tags, run, pkg), cwd=wt, timeout=900, env=env)
     return rc, out
 
 
@@ -78,7 +79,10 @@ def main():
                 rec["agent_meta"] = meta
                 demo_src = os.path.join(src, "demo_test.go")
                 target = demo_target(demo_src)
-                tags = "-tags verif" if "go:build verif" in open(demo_src).read() else ""
+                dsrc = open(demo_src).read()
+                tags = "-tags verif" if "go:build verif" in dsrc else ""
+                if "go:build race" in dsrc:
+                    tags += " -race"
                 if not target:
                     rec["status"] = "demo target path not found"
                     continue
